@@ -127,7 +127,7 @@ def main(argv):
         nd = sum(1 for v in r['verdicts'] if v['status'] == 'discharged')
         print('%-55s %-11s paths=%-4d vcs=%-4d discharged=%-4d %.1fs %s' % (
             r['func'].split(':')[1], r['status'], r['paths'], len(r['verdicts']), nd, r['time'],
-            r['message'][:300]))
+            r['message'][-int(os.environ.get('PYVC_MSG', 300)):]))
         for v in r['verdicts']:
             if v['status'] != 'discharged':
                 print('     %-9s %s  [%s] %s path=%s' % (v['status'], v['name'], v['func'],
